@@ -42,6 +42,15 @@ def base_cases(rng, tier):
     ]:
         new.append(dict(api="new", rw=2, rh=2, frames=frames, loops=loops, cache=cache, pad=pad,
                         cols=7, rows=5, tty=tty, r0=0, animate=True, hide_cursor=hide, echo_input=echo))
+    # initial terminal attribute sets other than "canonical with echo": draw() must put back
+    # exactly what it found
+    for mode in ("noecho", "raw", "cbreak05"):
+        new.append(dict(api="new", rw=2, rh=1, frames=2, loops=1, cache=False, tty_mode=mode,
+                        pad={"kind": "exact", "l": 0, "t": 0, "r": 0, "b": 0}, cols=7, rows=5,
+                        tty=True, r0=0, animate=True, hide_cursor=mode != "raw", echo_input=False))
+        new.append(dict(api="new", rw=2, rh=1, frames=1, loops=1, cache=False, tty_mode=mode,
+                        pad={"kind": "exact", "l": 0, "t": 0, "r": 0, "b": 0}, cols=7, rows=5,
+                        tty=True, r0=0, animate=True, hide_cursor=True, echo_input=False))
     old = []
     for style, ident, method in [("block", "other", None), ("kitty", "kitty", "lines"),
                                  ("kitty", "kitty-old", "whole"), ("kitty", "konsole", "lines"),
@@ -127,6 +136,9 @@ def main(rep: Report, replay: dict | None) -> None:
     rng = random.Random(rep.seed * 613 + 11)
     if not replay:
         vt_conf.check(rep)  # cut-off sequences are judged by the parser rules of VT.tla
+        from .. import draw_model
+
+        draw_model.check(rep, "interrupted")  # Draw.tla: clean-up programs after a Ctrl-C
     if replay:
         sc = replay["scenario"]
         jobs = [(sc["case"], sc["fault"], sc["expect"])]
